@@ -123,9 +123,9 @@ def _make(B, kind, tag, W):
             return cm.annihilation(B, d)
 
         wrap = lambda M: B.jnp.array(M) if B.mode == "real" else B.jnp.ndarray(M)
-        ctx = {"n0": lambda dims: wrap(num(int(dims[0]))), "x1": lambda dims: wrap(quad(int(dims[1])))}
-        op = Operation(CompositeOperationType.Expression, expr=("kron", "n0", "x1"), state_types=("Fock", "Fock"), context=ctx)
-        return op, (lambda d: ref.kron(num(d[0]), quad(d[1]))), True, user, 0
+        ctx = {"a0": lambda dims: wrap(quad(int(dims[0]))), "n1": lambda dims: wrap(num(int(dims[1])))}
+        op = Operation(CompositeOperationType.Expression, expr=("kron", "a0", "n1"), state_types=("Fock", "Fock"), context=ctx)
+        return op, (lambda d: ref.kron(quad(d[0]), num(d[1]))), True, user, 0
     if kind in ("comp.ExprPC", "comp.ExprCP"):
         M = B.operator("U" + tag, 4)
         types = ("Polarization", "CustomState") if kind == "comp.ExprPC" else ("CustomState", "Polarization")
